@@ -4,7 +4,12 @@ spellings give the same verdict:
 
 * statements that cannot matter to any rule are dropped: `pass` next to other statements and
   pure logging / warning calls (`logging.*`, `logger.*`, `warnings.warn`, `…getLogger(…).x(…)`);
-* `if not C: A else: B` (no elif chain) is oriented as `if C: B else: A`.
+* `if not C: A else: B` (no elif chain) is oriented as `if C: B else: A`;
+* `if a: if b: X` (no else on either, nothing else in the outer body, no walrus) is merged into
+  `if a and b: X`;
+* `x = x + k` / `x = x - k` with an integer-like right operand (an int constant or a `len(...)`
+  call) and a plain name or `name.attr` target is written `x += k` / `x -= k` (for such operands
+  the two are the same operation; sequences are left alone because `+=` mutates in place).
 """
 from __future__ import annotations
 
@@ -63,7 +68,43 @@ class _Canon(ast.NodeTransformer):
         return node
 
 
+def _intlike(e):
+    return (isinstance(e, ast.Constant) and type(e.value) is int) or (
+        isinstance(e, ast.Call) and isinstance(e.func, ast.Name) and e.func.id == "len"
+    )
+
+
+class _Canon2(ast.NodeTransformer):
+    def visit_If(self, node):
+        self.generic_visit(node)
+        if (
+            not node.orelse and len(node.body) == 1 and isinstance(node.body[0], ast.If) and not node.body[0].orelse
+            and not any(isinstance(x, ast.NamedExpr) for x in ast.walk(node.test))
+        ):
+            inner = node.body[0]
+            vals = []
+            for t in (node.test, inner.test):
+                vals.extend(t.values if isinstance(t, ast.BoolOp) and isinstance(t.op, ast.And) else [t])
+            new = ast.If(test=ast.BoolOp(op=ast.And(), values=vals), body=inner.body, orelse=[])
+            return ast.copy_location(new, node)
+        return node
+
+    def visit_Assign(self, node):
+        self.generic_visit(node)
+        if len(node.targets) != 1:
+            return node
+        t, v = node.targets[0], node.value
+        simple = isinstance(t, ast.Name) or (isinstance(t, ast.Attribute) and isinstance(t.value, ast.Name))
+        if (
+            simple and isinstance(v, ast.BinOp) and isinstance(v.op, (ast.Add, ast.Sub))
+            and ast.dump(v.left) == ast.dump(t).replace("ctx=Store()", "ctx=Load()") and _intlike(v.right)
+        ):
+            return ast.copy_location(ast.AugAssign(target=t, op=v.op, value=v.right), node)
+        return node
+
+
 def canonicalise(tree):
+    tree = _Canon2().visit(tree)
     tree = _Canon().visit(tree)
     ast.fix_missing_locations(tree)
     return tree
